@@ -46,7 +46,7 @@ CLAIMED = {
               'and every count 1 <= |n| <= 2^20 is the offset of the n-th Mon-Fri day (relational oracle: counting '
               'function B(t)); dt_dadd_b per calendar; dt_ddiff(DURBD) counts and inverts the addition; every '
               'bizda month/index maps to the index-th business day of the month.'),
-        note='oracle B(t) = 5*(t/7)+min(t%7,5); loop calendars bounded in |n|; three listed known findings, one defect fixed',
+        note='oracle B(t) = 5*(t/7)+min(t%7,5); loop calendars bounded in |n|; one listed known finding, three defects fixed',
         technique='CBMC bounded model checking of the business-day closed forms against a counting oracle',
         design='3/C07'),
     'C08': dict(
